@@ -19,12 +19,14 @@ WHAT = {
 }
 
 
-def thread_part(rep, b, tier):
+def thread_part(rep, b, tier, partial=0):
     """C03 part B: real threads on channel.c + linux/platform.c under vsched, from every blocked (state, request) case of the
     E1 search for small capacities: all interleavings of the writer's check-then-sleep with reader unmaps and the refuse signal."""
     from . import rt
     exe = rt.build_rt('chan_main')
     caps = [(3, 1), (3, 2), (4, 1)] if tier == 'quick' else [(3, 1), (3, 2), (4, 1), (4, 2), (5, 1)]
+    if partial:
+        caps = [(3, 1), (4, 1)] if tier == 'quick' else [(3, 1), (4, 1), (3, 2), (5, 1)]
     tmp = tempfile.mkdtemp(prefix='c03b-', dir=f'{C.V}/build')
     cfgs = []
     for (cap, nr) in caps:
@@ -33,9 +35,11 @@ def thread_part(rep, b, tier):
         small = (cap, nr) == (3, 1)
         deep = tier == 'thorough' and cap * nr <= 4
         for (a, rd, bound) in ((0, 1, 2 if small or deep else 1), (1, 1, 2 if small or deep else 1), (1, 0, 3 if small or deep else 2)):
-            if tier == 'quick' and not small and rd:
+            if tier == 'quick' and not small and rd and not partial:
                 continue # with live readers the product cases x schedules is large: thorough tier only
-            cfgs.append(rt.cfg('c03b', bound, cases=f, with_a=a, readers=rd))
+            if partial and not rd:
+                continue
+            cfgs.append(rt.cfg('c03b', bound, cases=f, with_a=a, readers=rd, **({'partial': 1} if partial else {})))
     sub = C.Report('C03', tier)
     rt.run_cfgs(sub, exe, cfgs, C.deadline_s(1500 if tier == 'thorough' else 300), 'thread-level check-then-sleep window')
     for v in sub.violations:
@@ -106,6 +110,8 @@ def run(pid, tier):
         rep.coverage['parked_writer_closure'] = c03
     if pid == 'C03':
         thread_part(rep, b, tier)
+    if pid == 'C02':   # a writer that slept and was woken by a notification that freed too little must not be handed unconsumed bytes
+        thread_part(rep, b, tier, partial=1)
     rep.assumptions = ['operation-level atomicity of channel.c (every operation holds the channel lock from entry to exit; the unlocked store in channel_accept_writes is explored at thread level by the c03 thread check)',
                        'ring contents are modelled by per-cell stream lags; channel.c never reads ring memory',
                        'capacities and reader counts beyond the listed configurations are not enumerated']
